@@ -3031,6 +3031,9 @@ def _reorder_var(
         start, end = end, start
     _shift(bdd, level, start, levels)
     sizes = _shift(bdd, start, end, levels)
+    if not sizes:
+        # single variable, nothing to sift
+        return level
     k = min(sizes, key=sizes.get)
     _shift(bdd, end, k, levels)
     m_ = len(bdd)
